@@ -324,6 +324,12 @@ def coq_values(prop: str, header: str, exprs: Sequence[str], chunk: int = 300, t
     vals: List[Any] = []
     with ThreadPoolExecutor(max_workers=min(16, max(1, len(files)))) as ex:
         results = list(ex.map(_run_case_file, [(f, timeout) for f in files]))
+    if any(rc != 0 for rc, _ in results):
+        # a concurrent build (another check) may have been replacing a .vo this evaluation loads: wait for it to finish
+        # and re-run the failed files once; a genuine error fails again
+        with BuildLock():
+            pass
+        results = [(rc, out) if rc == 0 else _run_case_file((f, timeout)) for f, (rc, out) in zip(files, results)]
     for f, (rc, out) in zip(files, results):
         if rc != 0:
             raise CoqEvalError(f"{f}: coqc failed\n{out[-2000:]}")
